@@ -162,6 +162,8 @@ def main():
                     why = ("NOT KEPT: the change (command manager captured in a local variable in execute_control_command_from_user) was "
                            "caught by C40 with two request threads on the tree of that time; the repair 29569b3e (requests take the engine "
                            "lock) makes it harmless and the patch no longer applies")
+                if (wave, pid) == ("seed7", "C04"):
+                    why = "NOT KEPT: the sub-agent found no qualifying change (every single-point break of C04 was on its avoid list already)"
                 rows.append((pid + suffix, pid, "-", why, ""))
                 continue
             res = json.load(open(res_fn))
